@@ -33,8 +33,9 @@ let () =
       if toks = "" || toks.[0] = '#' then print_newline ()
       else begin
         let l = List.init (String.length line) (fun i -> n_of_int (Char.code line.[i])) in
-        let (st', out) = run_line idna !st l in
-        st := st';
+        let out = match buf_line l with
+          | Some o -> o
+          | None -> let (st', out) = run_line idna !st l in st := st'; out in
         Buffer.clear buf;
         List.iter (fun c -> Buffer.add_char buf (Char.chr (int_of_n c land 255))) out;
         print_string (Buffer.contents buf); print_newline ()
